@@ -30,12 +30,14 @@ GEN_SPECS = {
     "stub": '<start> ::= <hdr> ":" <body>\n<hdr> ::= <d>+ := gen_hdr()\n<d> ::= "0" | "1"\n<body> ::= "x" | "y"\n\ndef gen_hdr():\n    return "0"\n',
     "nested": '<start> ::= <len> "#" <chk>\n<pay> ::= "p"{1,2}\n<len> ::= <d> := str(len(str(<pay>)))\n<d> ::= "1" | "2" | "3"\n'
               '<chk> ::= <d> := str(int(str(<len>)) + 1)\n',
+    # a dependent generator whose value can leave the language of its rule: len("ppp") = "3" is no <d>
+    "overflow": '<start> ::= <len> ":" <pay>\n<len> ::= <d> := str(len(str(<pay>)))\n<d> ::= "1" | "2"\n<pay> ::= "p"{1,3}\n',
 }
 SPEC = os.environ.get("H_SPEC", "dep")
 NCH = int(os.environ.get("H_CHOICES", "6"))
 WHICH = int(os.environ.get("H_WHICH", "-1"))  # >= 0: the replacement candidate is fixed per condition
 G = load(GEN_SPECS[SPEC])
-nodes_mod.MAX_REPETITIONS = 2
+nodes_mod.MAX_REPETITIONS = 3 if SPEC == "overflow" else 2
 RET_ALPHA = "01a"
 
 # harness-owned re-implementation of each generator, applied to the recorded argument trees
@@ -51,6 +53,7 @@ EXPECT = {
     "twice": {"<dd>": lambda n: text_of(_src(n, "<a>")) * 2},
     "stub": {},
     "nested": {"<len>": lambda n: str(len(text_of(_src(n, "<pay>")))), "<chk>": lambda n: str(int(text_of(_src(n, "<len>"))) + 1)},
+    "overflow": {"<len>": lambda n: str(len(text_of(_src(n, "<pay>"))))},
 }[SPEC]
 
 
@@ -88,6 +91,10 @@ def fuzz_with(choices):
     A.random = R.random = TT.random = r
     try:
         t = G.fuzz("<start>", 30)
+    except FandangoParseError:
+        if SPEC == "overflow":  # the generated length is no <d>: raising is the specified behaviour
+            raise IgnoreAttempt("generator value does not fit its rule")
+        raise
     finally:
         A.random, R.random, TT.random = saved
     if r.i != len(choices):
@@ -131,7 +138,18 @@ def valid_with_sources(t):
 # a fixed second tree (fuzzed natively at import with a seeded generator) supplies replacement subtrees
 import random as _random
 _random.seed(int(os.environ.get("VERIF_SEED", "0") or 0) + 7)
-OTHERS = [G.fuzz("<start>", 30) for _ in range(3)]
+OTHERS = []
+for _ in range(400):
+    try:
+        _t = G.fuzz("<start>", 30)
+    except FandangoParseError:
+        continue  # spec `overflow`: a generated value that does not fit
+    if SPEC == "overflow" and len(OTHERS) == 0 and not _t.to_string().endswith(":ppp"):
+        continue  # the first replacement candidate for <pay> is one whose length is no <d>
+    OTHERS.append(_t)
+    if len(OTHERS) == 3:
+        break
+assert len(OTHERS) == 3
 
 
 def fields_follow_generators(choices: List[int]) -> bool:
@@ -166,10 +184,11 @@ def operators_respect_generators(choices: List[int], target: int, which: int) ->
     was_read_only = n.read_only
     try:
         t2 = t.replace(G, n, repl)
-    except (FandangoValueError, KeyError):
+    except (FandangoValueError, KeyError, FandangoParseError):
         # refusal: the replacement contains a generated field whose arguments cannot be re-derived
         # (no converter: FandangoValueError; generated argument of a generated field: KeyError in the
-        # dependency sort); an error instead of an edit is what the property asks for
+        # dependency sort), or the re-run generator's value does not fit its rule (FandangoParseError);
+        # an error instead of an edit is what the property asks for
         return snapshot(t) == before
     if snapshot(t) != before:
         return False  # the input individual was modified
@@ -197,7 +216,7 @@ def reach_ops(choices: List[int], target: int, which: int) -> bool:
         raise IgnoreAttempt("which")
     try:
         t2 = t.replace(G, n, cands[which])
-    except (FandangoValueError, KeyError):
+    except (FandangoValueError, KeyError, FandangoParseError):
         return True
     in_sources = any(isinstance(p, SourceStepT) for p in n.get_choices_path())
     return not (in_sources and t2.to_string() != t.to_string())
